@@ -67,6 +67,53 @@ def build_items(tier, rng, scratch, out):
     return items
 
 
+LEX = {'W1': ' ', 'W2': '  ', 'T': 'a', 'K': 'del', 'O': '(', 'C': ')', 'N': '\n', 'H': '#c', 'B': '\\\n', 'E': '$'}
+TB_INVS = ['EnvOk', 'PrefixPure', 'IndentsSorted', 'DepthMatches', 'NoLexemeLost', 'EndsBalanced']
+
+
+def tokenizer_b(out, tier, scratch, rng):
+    """design: TokenizerB explored exhaustively (TokenizerB => TokEnv and the lexeme-level C09 clauses);
+    binding: its simulated behaviours are rendered and the predicted token stream is compared with the real one"""
+    import json
+    from harness import record, tlc
+    d = scratch.sub('tb')
+    tb = {'maxcol': 6 if tier == 'quick' else 8, 'maxind': 2 if tier == 'quick' else 3, 'maxparen': 2, 'maxaddp': 3,
+          'hist': False, 'closeat': 0}
+    tlc.prepare(d, ['TokEnv', 'TokenizerB'], {'tb.json': json.dumps(tb)})
+    cfg = 'SPECIFICATION Spec\nCONSTRAINT Bound\n' + ''.join('INVARIANT %s\n' % i for i in TB_INVS)
+    res = tlc.run(d, 'TokenizerB', cfg, workers=4, timeout=1500)
+    out.add('states', res.distinct)
+    out.add('transitions', res.generated)
+    if res.violated:
+        out.drift.append('TokenizerB violates %s: %s' % (res.violated, res.out[-600:]))
+    tb.update(hist=True, closeat=18, maxcol=99, maxind=9, maxparen=9, maxaddp=99)
+    tlc.prepare(d, ['TokEnv', 'TokenizerB'], {'tb.json': json.dumps(tb)})
+    sim = tlc.run(d, 'TokenizerB', 'SPECIFICATION Spec\n' + ''.join('INVARIANT %s\n' % i for i in TB_INVS), workers=2,
+                  simulate='num=%d' % (400 if tier == 'quick' else 5000), depth=24, seed=rng.randrange(1 << 30), timeout=900)
+    runs = [r[1] for r in sim.printed('LEXRUN')]
+    agree = dis = 0
+    for toks in runs:
+        # rebuild the text from the predicted stream (prefix lexemes + token lexeme), then ask the real tokenizer
+        text = ''
+        want = []
+        for typ, lx, col, pre in toks:
+            ptxt = ''.join(LEX[x] for x in pre)
+            stxt = LEX.get(lx, '')
+            text += ptxt + stxt
+            want.append((typ, stxt, col, ptxt))
+        tr = record.token_trace(1, text, '3.9')
+        got = [(t['t'], ''.join(map(chr, t['s'])), t['c'], ''.join(map(chr, t['p']))) for t in tr['toks']]
+        if got == want:
+            agree += 1
+        else:
+            dis += 1
+            if dis <= 3:
+                out.drift.append('TokenizerB and the real tokenizer disagree on %r: spec %s real %s' % (
+                    text, want[:6], got[:6]))
+    out.cov(tokenizerb_exhaustive_states=res.distinct, tokenizerb_runs=len(runs), tokenizerb_agree=agree,
+            tokenizerb_disagree=dis)
+
+
 def classify(rej):
     """cause key of a rejected observation"""
     r = rej['reject']
@@ -116,6 +163,7 @@ def run(tier):
             out.sample(s)
         out.assumptions += ['TLC and the JSON recorder layer are trusted; recorders log values only',
                             'positions: only \\n, \\r\\n, \\r are line breaks, a leading BOM has zero width']
+        tokenizer_b(out, tier, scratch, rng)
         bind = selftest.binding_tokens(scratch.sub('bind'))
         out.cov(binding_demonstrated=bind)
         if not bind['ok']:
